@@ -4,8 +4,17 @@
 Nodes talk through a `Network` whose links have non-zero latency and jitter
 (per builder also loss and a partition that heals).  Periodic protocol timers
 (heartbeat, probe, election timeout) take their awkward value from `p.lat(i)`
-scaled up by powers of ten so that a run stays within a few thousand timer
-ticks.  Client operations start at the arrival instants (bursts on one ns).
+brought into a window derived from `end`, so a run stays within a few thousand
+timer ticks.  Client operations start at the arrival instants (bursts on one ns).
+
+Three axes are varied systematically:
+  counts       cluster sizes from `p.count(i, default, lo, hi)` (one- and two-member clusters
+               where the constructor accepts them, up to 9 members)
+  proportions  sibling parameters far out of proportion (heartbeat >> / << election timeout,
+               retry back-off >> / << link latency, suspicion timeout << probe interval,
+               lease << hold ...), one builder per direction
+  degenerate   operations before a leader exists, empty commands, zero commands, identical
+               proposals from every node on one nanosecond
 """
 
 from __future__ import annotations
@@ -44,18 +53,26 @@ def _period(v: float, floor: float) -> float:
     return v
 
 
-def _mesh(net, nodes, p, k0=0, loss=0.0, bw=20_000_003.0, cap_s=None):
+def _below(v: float, ceil: float) -> float:
+    """Divide by ten until <= ceil (never below one nanosecond)."""
+    while v > ceil:
+        v /= 10.0
+    return max(v, 1e-9)
+
+
+def _mesh(net, nodes, p, k0=0, loss=0.0, bw=20_000_003.0, cap_s=None, lat_fn=None):
     """Full mesh of links with latency + jitter (+ bandwidth, loss).  `cap_s` keeps the one-way
-    latency below a protocol timer when the protocol needs it (scaled *down* by powers of ten)."""
+    latency below a protocol timer when the protocol needs it (scaled *down* by powers of ten);
+    `lat_fn(k)` replaces the drawn latency altogether (proportion builders)."""
     k = k0
     for i, a in enumerate(nodes):
         for b in nodes[i + 1 :]:
-            lat, jit = p.lat(k), p.lat(k + 1)
+            if lat_fn is not None:
+                lat, jit = lat_fn(k), lat_fn(k + 1)
+            else:
+                lat, jit = p.lat(k), p.lat(k + 1)
             if cap_s is not None:
-                while lat > cap_s:
-                    lat /= 10.0
-                while jit > cap_s:
-                    jit /= 10.0
+                lat, jit = _below(lat, cap_s), _below(jit, cap_s)
             net.add_bidirectional_link(
                 a,
                 b,
@@ -82,6 +99,28 @@ def _kv_cmd(i: int) -> dict:
     return {"op": "set", "key": key, "value": i}
 
 
+def _empty_cmd(i: int):
+    """Degenerate commands: None, empty dict, empty string, empty tuple."""
+    return [None, {}, "", ()][i % 4]
+
+
+class AnyStateMachine:
+    """State machine (public `StateMachine` protocol) that accepts any command, including empty ones."""
+
+    def __init__(self):
+        self.applied: list = []
+
+    def apply(self, command):
+        self.applied.append(command)
+        return len(self.applied)
+
+    def snapshot(self):
+        return list(self.applied)
+
+    def restore(self, snapshot):
+        self.applied = list(snapshot)
+
+
 def _leader_of(nodes):
     for n in nodes:
         if n.is_leader:
@@ -93,19 +132,40 @@ def _leader_of(nodes):
 # Raft
 
 
-def _raft(n: int, default_loss: float, with_partition: bool, cap_latency: bool = True):
+def _raft_timers(p, end, prop):
+    """(heartbeat, election_timeout_min, election_timeout_max, max cluster size)."""
+    if prop == "hb_gt_et":  # heartbeat rarer than the election timeout: followers keep timing out
+        et_min = _period(p.lat(1), end / 100.0)
+        et_max = et_min + _period(p.lat(2), et_min * 0.25)
+        return _period(p.lat(0), et_max * 4.0), et_min, et_max, 5
+    if prop == "hb_lt_et":  # ~60 heartbeats per election timeout
+        et_min = _period(p.lat(1), end / 8.0)
+        et_max = et_min + _period(p.lat(2), et_min * 0.25)
+        return _period(p.lat(0), end / 500.0), et_min, et_max, 5
+    if prop == "et_equal":  # no randomisation at all: every follower times out on the same instant
+        et = _period(p.lat(1), end / 80.0)
+        return _period(p.lat(0), et / 3.0), et, et, 5
+    hb = _period(p.lat(0), end / 250.0)
+    et_min = _period(p.lat(1), hb * 2.5)
+    return hb, et_min, et_min + _period(p.lat(2), hb * 0.5), 9
+
+
+def _raft(n_default, default_loss, with_partition, cap_latency=True, prop=None, ops="normal"):
+    """Cluster size = count(0) (1..9, a partition needs 3).  ops: 'normal' (KV commands to the leader),
+    'degenerate' (commands before any node was started / with no leader, empty commands), 'idle' (no
+    command at all: the arrivals start the nodes)."""
+
     def build(seed, params):
         p = P(params, seed)
         end = p.end()
         net = Network(name="net")
-        hb = _period(p.lat(0), end / 250.0)
-        et_min = _period(p.lat(1), hb * 2.5)
-        et_max = et_min + _period(p.lat(2), hb * 0.5)
+        hb, et_min, et_max, hi = _raft_timers(p, end, prop)
+        n = p.count(0, n_default, lo=3 if with_partition else 1, hi=hi)
         nodes = [
             RaftNode(
                 f"raft{i}",
                 network=net,
-                state_machine=KVStateMachine(),
+                state_machine=KVStateMachine() if ops == "normal" else AnyStateMachine(),
                 election_timeout_min=et_min,
                 election_timeout_max=et_max,
                 heartbeat_interval=hb,
@@ -114,12 +174,22 @@ def _raft(n: int, default_loss: float, with_partition: bool, cap_latency: bool =
         ]
         for nd in nodes:
             nd.set_peers(nodes)
-        _mesh(net, nodes, p, k0=3, loss=float(p.x("loss", default_loss)), cap_s=hb * 0.5 if cap_latency else None)
+        _mesh(net, nodes, p, k0=3, loss=float(p.x("loss", default_loss)), cap_s=min(hb, et_min) * 0.5 if cap_latency else None)
         arr = p.arrivals(12)
-        max_polls = int(end / hb) + 2
+        poll = min(hb, et_min)
+        max_polls = int(end / poll) + 2
 
         def client(proc, event):
             i = event.context["metadata"]["worker"]
+            if ops == "degenerate":
+                # no waiting for a leader: whoever is asked takes the command (queued on a follower)
+                tgt = nodes[i % n]
+                fut = tgt.submit(_empty_cmd(i) if i % 3 else _kv_cmd(i))
+                proc.log.append((i, tgt.name, tgt.is_leader))
+                if tgt.is_leader:
+                    yield fut
+                proc.done += 1
+                return
             if i % 5 == 4:
                 # command handed to a follower: it is queued on a future nobody resolves
                 tgt = next((nd for nd in nodes if not nd.is_leader), nodes[0])
@@ -131,7 +201,7 @@ def _raft(n: int, default_loss: float, with_partition: bool, cap_latency: bool =
                 leader = _leader_of(nodes)
                 if leader is not None:
                     break
-                yield hb
+                yield poll
             if leader is None:
                 return
             fut = leader.submit(_kv_cmd(i))
@@ -139,13 +209,13 @@ def _raft(n: int, default_loss: float, with_partition: bool, cap_latency: bool =
             proc.log.append((i, r[0]))
             proc.done += 1
 
-        clients = [Proc(f"cli{i}", client) for i in range(3)]
+        clients = [Proc(f"cli{i}", client) for i in range(p.count(1, 3, lo=1, hi=5))]
 
-        def late_start(proc, event):
+        def start_node(proc, event):
             proc.done += 1
-            return nodes[-1].start()
+            return nodes[event.context["metadata"]["worker"] % n].start()
 
-        starter = Proc("late_starter", late_start)
+        starter = Proc("starter", start_node)
         ents = [net, *nodes, *clients, starter]
         comps = {nd.name: nd for nd in nodes}
         comps["net"] = net
@@ -156,7 +226,7 @@ def _raft(n: int, default_loss: float, with_partition: bool, cap_latency: bool =
                     leader = _leader_of(nodes)
                     if leader is not None:
                         break
-                    yield hb
+                    yield poll
                 else:
                     return
                 yield hb * 2.25
@@ -168,20 +238,39 @@ def _raft(n: int, default_loss: float, with_partition: bool, cap_latency: bool =
                 part.heal()
                 proc.log.append(("heal", proc.now.nanoseconds))
                 proc.done += 1
-                return [ev(proc.now.nanoseconds, "start", clients[j % 3], worker=j) for j in range(3)]
+                return [ev(proc.now.nanoseconds, "start", clients[j % len(clients)], worker=j) for j in range(3)]
 
             ch = Proc("chaos", chaos)
             ents.append(ch)
             comps["chaos"] = ch
         sim = make_sim(ents, end)
-        for nd in nodes[:-1]:
-            sim.schedule(nd.start())
-        sim.schedule(ev(min(arr), "start", starter))  # the last node joins at the first arrival instant
+        t0 = min(arr)
+        if ops == "idle":
+            # zero commands: every arrival (re)starts a node - bursts of start() on one nanosecond
+            for i, t in enumerate(arr):
+                sim.schedule(ev(t, "start", starter, worker=i))
+            for i in range(len(arr), n):
+                sim.schedule(ev(t0, "start", starter, worker=i))
+            return Scenario(sim, comps, "consensus", True, max(len(arr), n))
+        if ops == "degenerate":
+            # the commands of the first burst arrive before any node was started
+            late = t0 + int(et_min * 0.5 * 1e9) + 1
+            for i in range(n):
+                sim.schedule(ev(late, "start", starter, worker=i))
+        else:
+            for nd in nodes[:-1]:
+                sim.schedule(nd.start())
+            sim.schedule(ev(t0, "start", starter, worker=n - 1))  # the last node joins at the first arrival instant
         for i, t in enumerate(arr):
-            sim.schedule(ev(t, "start", clients[i % 3], worker=i))
+            sim.schedule(ev(t, "start", clients[i % len(clients)], worker=i))
+        if ops == "degenerate":
+            # and a second wave once a leader may exist
+            t2 = max(arr) + int(et_max * 4 * 1e9)
+            for j in range(4):
+                sim.schedule(ev(t2, "start", clients[j % len(clients)], worker=100 + j))
         if with_partition:
-            sim.schedule(ev(min(arr), "start", ch))
-        return Scenario(sim, comps, "consensus", True, len(arr) + 1 + (4 if with_partition else 0))
+            sim.schedule(ev(t0, "start", ch))
+        return Scenario(sim, comps, "consensus", True, len(arr) + n + (4 if with_partition or ops == "degenerate" else 0))
 
     return build
 
@@ -189,34 +278,56 @@ def _raft(n: int, default_loss: float, with_partition: bool, cap_latency: bool =
 scenario("consensus.raft_three", "consensus")(_raft(3, 0.0, False))
 scenario("consensus.raft_three_lossy", "consensus")(_raft(3, 0.05, False, cap_latency=False))
 scenario("consensus.raft_five_partition", "consensus")(_raft(5, 0.01, True))
+# wide
+scenario("consensus.raft_nine", "consensus")(_raft(9, 0.0, False))
+scenario("consensus.raft_heartbeat_slower_than_election", "consensus")(_raft(3, 0.0, False, prop="hb_gt_et"))
+scenario("consensus.raft_heartbeat_much_faster_than_election", "consensus")(_raft(3, 0.02, False, prop="hb_lt_et"))
+scenario("consensus.raft_election_timeout_min_equals_max", "consensus")(_raft(3, 0.0, False, prop="et_equal"))
+scenario("consensus.raft_degenerate_commands", "consensus")(_raft(3, 0.0, False, ops="degenerate"))
+scenario("consensus.raft_no_commands", "consensus")(_raft(2, 0.0, False, ops="idle"))
 
 
 # ----------------------------------------------------------------------
 # single-decree Paxos
 
 
-def _paxos(n: int, n_proposers: int, default_loss: float, with_partition: bool):
+def _paxos(n_default, n_prop_default, default_loss, with_partition, prop=None, identical=False):
+    """Nodes = count(0) (1..9, a partition needs 2), proposers = min(nodes, count(1)).
+    prop 'retry_fast': retry back-off << link latency; 'retry_slow': back-off >> link latency.
+    identical: EVERY node proposes the same value on the first arrival nanosecond."""
+
     def build(seed, params):
         p = P(params, seed)
         end = p.end()
         net = Network(name="net")
-        # One-way latency (and mean jitter) is capped at end/200 and the retry back-off is kept above
-        # ~3 round trips: with a back-off far below the network latency the duelling proposers of this
-        # implementation never settle and their retries multiply (time keeps advancing; reported
-        # separately as a non-C07 finding), which exhausts the delivery budget instead of testing C07.
-        # x.raw_retry: drawn latencies unscaled (reproducer of the retry amplification).
-        raw = bool(p.x("raw_retry", False))
-        cap_s = None if raw else end / 200.0
-        nodes = [PaxosNode(f"px{i}", network=net, retry_delay=p.lat(i) if raw else _period(p.lat(i), 12.0 * cap_s)) for i in range(n)]
+        n = p.count(0, n_default, lo=2 if with_partition else 1, hi=5 if prop == "retry_fast" else 9)
+        n_proposers = n if identical else max(1, min(n, p.count(1, n_prop_default)))
+        lat_fn = None
+        cap_s = None
+        if prop == "retry_fast":
+            # one round trip = end/10; a nacked proposer retries (almost) at once, so the number of
+            # rounds is bounded by the round trips that fit before `end`
+            lat_fn = lambda k: _period(p.lat(k), end / 20.0)
+            retry = [_below(p.lat(i), end / 20.0 / 1000.0) for i in range(n)]
+        elif prop == "retry_slow":
+            lat_fn = lambda k: _below(p.lat(k), end / 4.0 / 2000.0)
+            retry = [_period(p.lat(i), end / 4.0) for i in range(n)]
+        elif p.x("raw_retry", False):
+            retry = [p.lat(i) for i in range(n)]
+        else:
+            # one-way latency (and mean jitter) at most end/200, back-off above ~3 round trips
+            cap_s = end / 200.0
+            retry = [_period(p.lat(i), 12.0 * cap_s) for i in range(n)]
+        nodes = [PaxosNode(f"px{i}", network=net, retry_delay=retry[i]) for i in range(n)]
         for nd in nodes:
             nd.set_peers(nodes)
-        _mesh(net, nodes, p, k0=n, loss=float(p.x("loss", default_loss)), cap_s=cap_s)
+        _mesh(net, nodes, p, k0=n, loss=float(p.x("loss", default_loss)), cap_s=cap_s, lat_fn=lat_fn)
         arr = p.arrivals(8)
 
         def proposer(proc, event):
             i = event.context["metadata"]["worker"]
             node = nodes[i % n_proposers]
-            fut = node.propose(f"v{i}")
+            fut = node.propose("same" if (identical and i < 1000) else f"v{i}")
             evs = node.start_phase1()
             yield 0.0, evs
             v = yield fut
@@ -227,25 +338,32 @@ def _paxos(n: int, n_proposers: int, default_loss: float, with_partition: bool):
         ents = [net, *nodes, *procs]
         comps = {nd.name: nd for nd in nodes}
         if with_partition:
+            one_way = p.lat(n) if cap_s is None else _below(p.lat(n), cap_s)
 
             def cut(proc, event):
-                yield p.lat(n) * 0.5  # prepares are on the wire
-                part = net.partition(nodes[: n // 2], nodes[n // 2 :])
-                yield p.lat(n) * 4 + p.hold()
+                yield one_way * 0.5  # prepares are on the wire
+                part = net.partition(nodes[: max(1, n // 2)], nodes[max(1, n // 2) :])
+                yield one_way * 4 + p.hold()
                 part.heal()
                 proc.done += 1
                 # a fresh proposal on each side right after the heal
-                return [ev(proc.now.nanoseconds, "start", procs[j % n_proposers], worker=100 + j) for j in range(2)]
+                return [ev(proc.now.nanoseconds, "start", procs[j % n_proposers], worker=1000 + j) for j in range(2)]
 
             pp = Proc("partitioner", cut)
             ents.append(pp)
             comps["partitioner"] = pp
         sim = make_sim(ents, end)
+        extra = 0
+        if identical:
+            for j in range(n):  # every node, one nanosecond, one value
+                sim.schedule(ev(min(arr), "start", procs[j], worker=j))
+            extra = n
+            # the arrivals propose again (after a decision `propose` answers at once)
         for i, t in enumerate(arr):
-            sim.schedule(ev(t, "start", procs[i % n_proposers], worker=i))
+            sim.schedule(ev(t, "start", procs[i % n_proposers], worker=n + i if identical else i))
         if with_partition:
             sim.schedule(ev(min(arr), "start", pp))
-        return Scenario(sim, comps, "consensus", True, len(arr) + (3 if with_partition else 0))
+        return Scenario(sim, comps, "consensus", True, len(arr) + extra + (3 if with_partition else 0))
 
     return build
 
@@ -253,45 +371,60 @@ def _paxos(n: int, n_proposers: int, default_loss: float, with_partition: bool):
 scenario("consensus.paxos_dueling_proposers", "consensus")(_paxos(3, 3, 0.0, False))
 scenario("consensus.paxos_five_lossy", "consensus")(_paxos(5, 3, 0.1, False))
 scenario("consensus.paxos_partition_heal", "consensus")(_paxos(5, 4, 0.02, True))
+# wide
+scenario("consensus.paxos_nine_nodes", "consensus")(_paxos(9, 5, 0.0, False))
+scenario("consensus.paxos_all_propose_same_value", "consensus")(_paxos(5, 5, 0.0, False, identical=True))
+scenario("consensus.paxos_retry_faster_than_links", "consensus")(_paxos(3, 3, 0.0, False, prop="retry_fast"))
+scenario("consensus.paxos_retry_slower_than_links", "consensus")(_paxos(3, 3, 0.05, False, prop="retry_slow"))
 
 
 # ----------------------------------------------------------------------
 # Multi-Paxos / Flexible Paxos (log based)
 
 
-def _log_paxos(kind: str, n: int, default_loss: float):
+def _flex_quorums(n: int, v: int) -> tuple[int, int]:
+    """(Q1, Q2) with Q1 + Q2 > n, both within 1..n; three shapes selected by v."""
+    shapes = [(max(1, n - 1), min(n, 2)), (min(n, 2), max(1, n - 1)), (n, 1)]
+    q1, q2 = shapes[v % 3]
+    if q1 + q2 <= n:
+        q1 = n - q2 + 1
+    return q1, q2
+
+
+def _log_paxos(kind, n_default, default_loss, prop=None, ops="normal"):
+    """Nodes = count(0) (1..9).  prop 'hb_fast' / 'hb_slow': heartbeat interval << / >> the leader
+    lease timeout (and the link latency).  ops: 'normal', 'degenerate' (submit before any start(),
+    empty commands), 'idle' (zero commands: candidates only)."""
+
     def build(seed, params):
         p = P(params, seed)
         end = p.end()
         net = Network(name="net")
-        hb = _period(p.lat(0), end / 200.0)
+        n = p.count(0, n_default, lo=1, hi=5 if prop == "hb_fast" else 9)
+        if prop == "hb_fast":
+            hb = _period(p.lat(0), end / 500.0)
+            lease = _period(p.lat(1), hb * 60.0)
+        elif prop == "hb_slow":
+            hb = _period(p.lat(0), end / 3.0)
+            lease = _below(p.lat(1), hb / 500.0)
+        else:
+            hb = _period(p.lat(0), end / 200.0)
+            lease = _period(p.lat(1), hb * 3)
+        mk_sm = (lambda: KVStateMachine()) if ops == "normal" else (lambda: AnyStateMachine())
         if kind == "multi":
             nodes = [
-                MultiPaxosNode(
-                    f"mp{i}",
-                    network=net,
-                    state_machine=KVStateMachine(),
-                    leader_lease_timeout=_period(p.lat(1), hb * 3),
-                    heartbeat_interval=hb,
-                )
+                MultiPaxosNode(f"mp{i}", network=net, state_machine=mk_sm(), leader_lease_timeout=lease, heartbeat_interval=hb)
                 for i in range(n)
             ]
         else:
-            q1, q2 = [(n - 1, 2), (2, n - 1), (n, 1)][int(p.x("v", seed)) % 3]
+            q1, q2 = _flex_quorums(n, int(p.x("v", seed)))
             nodes = [
-                FlexiblePaxosNode(
-                    f"fp{i}",
-                    network=net,
-                    state_machine=KVStateMachine(),
-                    phase1_quorum=q1,
-                    phase2_quorum=q2,
-                    heartbeat_interval=hb,
-                )
+                FlexiblePaxosNode(f"fp{i}", network=net, state_machine=mk_sm(), phase1_quorum=q1, phase2_quorum=q2, heartbeat_interval=hb)
                 for i in range(n)
             ]
         for nd in nodes:
             nd.set_peers(nodes)
-        _mesh(net, nodes, p, k0=2, loss=float(p.x("loss", default_loss)))
+        _mesh(net, nodes, p, k0=2, loss=float(p.x("loss", default_loss)), cap_s=end / 50.0 if prop else None)
         arr = p.arrivals(10)
         t0 = min(arr)
 
@@ -306,34 +439,42 @@ def _log_paxos(kind: str, n: int, default_loss: float):
             i = event.context["metadata"]["worker"]
             node = _leader_of(nodes) if i % 3 else nodes[i % n]
             node = node or nodes[i % n]
-            fut = node.submit(_kv_cmd(i))  # queued when `node` is not (yet) the leader
+            cmd = _kv_cmd(i) if ops == "normal" or i % 3 == 0 else _empty_cmd(i)
+            fut = node.submit(cmd)  # queued when `node` is not (yet) the leader
             out = []
             leader = _leader_of(nodes)
             if kind == "multi" and leader is not None and i % 2:
-                # event-driven path: forward a command to the leader
-                out.append(Event(time=proc.now, event_type="MultiPaxosForward", target=leader, context={"metadata": {"command": _kv_cmd(i + 50)}}))
+                # event-driven path: forward a command to the leader (an empty one in degenerate mode)
+                fwd = _kv_cmd(i + 50) if ops == "normal" else _empty_cmd(i + 1)
+                out.append(Event(time=proc.now, event_type="MultiPaxosForward", target=leader, context={"metadata": {"command": fwd}}))
             if out:
                 yield 0.0, out
             r = yield fut
             proc.log.append((i, node.name, r[0]))
             proc.done += 1
 
-        clients = [Proc(f"cli{i}", client) for i in range(3)]
+        clients = [Proc(f"cli{i}", client) for i in range(p.count(1, 3, lo=1, hi=5))]
         sim = make_sim([net, *nodes, *clients, cand], end)
+        step = int(min(hb, end / 40.0) * 2.5 * 1e9)
+        # degenerate: the first commands arrive before anybody ran phase 1
+        t_first = t0 if ops != "degenerate" else max(arr) + step // 2
         # two candidates start phase 1 on the same nanosecond; a third (and the first again) later
-        sim.schedule(ev(t0, "start", cand, worker=0))
-        sim.schedule(ev(t0, "start", cand, worker=1))
-        for i, t in enumerate(arr):
-            sim.schedule(ev(t, "start", clients[i % 3], worker=i))
-        step = int(hb * 2.5 * 1e9)
+        sim.schedule(ev(t_first, "start", cand, worker=0))
+        sim.schedule(ev(t_first, "start", cand, worker=1))
+        n_ops = 4
+        if ops != "idle":
+            for i, t in enumerate(arr):
+                sim.schedule(ev(t, "start", clients[i % len(clients)], worker=i))
+            n_ops += len(arr) + 3
         sim.schedule(ev(max(arr) + step, "start", cand, worker=2))
         sim.schedule(ev(max(arr) + 2 * step, "start", cand, worker=0))
-        for j in range(3):  # commands handed to the established leader, then a new phase 1 replicates them
-            sim.schedule(ev(max(arr) + 2 * step + int(hb * 0.5e9), "start", clients[j], worker=200 + 3 * j + 1))
+        if ops != "idle":
+            for j in range(3):  # commands handed to the established leader, then a new phase 1 replicates them
+                sim.schedule(ev(max(arr) + 2 * step + step // 5, "start", clients[j % len(clients)], worker=200 + 3 * j + 1))
         sim.schedule(ev(max(arr) + 3 * step, "start", cand, worker=0))
         comps = {nd.name: nd for nd in nodes}
         comps["net"] = net
-        return Scenario(sim, comps, "consensus", True, len(arr) + 8)
+        return Scenario(sim, comps, "consensus", True, n_ops)
 
     return build
 
@@ -342,19 +483,44 @@ scenario("consensus.multi_paxos_three", "consensus")(_log_paxos("multi", 3, 0.0)
 scenario("consensus.multi_paxos_five_lossy", "consensus")(_log_paxos("multi", 5, 0.05))
 scenario("consensus.flexible_paxos_quorums", "consensus")(_log_paxos("flex", 5, 0.0))
 scenario("consensus.flexible_paxos_lossy", "consensus")(_log_paxos("flex", 4, 0.05))
+# wide
+scenario("consensus.multi_paxos_nine", "consensus")(_log_paxos("multi", 9, 0.0))
+scenario("consensus.multi_paxos_heartbeat_fast", "consensus")(_log_paxos("multi", 3, 0.0, prop="hb_fast"))
+scenario("consensus.multi_paxos_heartbeat_slow", "consensus")(_log_paxos("multi", 3, 0.02, prop="hb_slow"))
+scenario("consensus.multi_paxos_degenerate_commands", "consensus")(_log_paxos("multi", 3, 0.0, ops="degenerate"))
+scenario("consensus.multi_paxos_no_commands", "consensus")(_log_paxos("multi", 2, 0.0, ops="idle"))
+scenario("consensus.flexible_paxos_nine", "consensus")(_log_paxos("flex", 9, 0.0))
+scenario("consensus.flexible_paxos_heartbeat_fast", "consensus")(_log_paxos("flex", 3, 0.0, prop="hb_fast"))
+scenario("consensus.flexible_paxos_heartbeat_slow", "consensus")(_log_paxos("flex", 2, 0.0, prop="hb_slow"))
+scenario("consensus.flexible_paxos_degenerate_commands", "consensus")(_log_paxos("flex", 3, 0.0, ops="degenerate"))
+scenario("consensus.flexible_paxos_no_commands", "consensus")(_log_paxos("flex", 1, 0.0, ops="idle"))
 
 
 # ----------------------------------------------------------------------
 # LeaderElection strategies
 
 
-def _election(strategy: str, n: int, default_loss: float, cap_latency: bool = True):
+def _election(strategy, n_default, default_loss, cap_latency=True, prop=None):
+    """Members = count(0) (1..9).  prop 'hb_gt_et': leader heartbeat interval >> election timeout;
+    'hb_lt_et': heartbeat << election timeout."""
+
     def build(seed, params):
         p = P(params, seed)
         end = p.end()
         net = Network(name="net")
-        hb = _period(p.lat(0), end / 200.0)
-        et = _period(p.lat(1), hb * 2.5)
+        if prop == "hb_gt_et":
+            et = _period(p.lat(1), end / 120.0)
+            hb = _period(p.lat(0), et * 5.0)
+            hi = 5
+        elif prop == "hb_lt_et":
+            et = _period(p.lat(1), end / 8.0)
+            hb = _period(p.lat(0), end / 500.0)
+            hi = 5
+        else:
+            hb = _period(p.lat(0), end / 200.0)
+            et = _period(p.lat(1), hb * 2.5)
+            hi = 9
+        n = p.count(0, n_default, lo=1, hi=hi)
         mk = {
             "bully": lambda: BullyStrategy(),
             "ring": lambda: RingStrategy(),
@@ -365,7 +531,7 @@ def _election(strategy: str, n: int, default_loss: float, cap_latency: bool = Tr
             for o in nodes:
                 if o is not nd or strategy == "ring":
                     nd.add_member(o)
-        _mesh(net, nodes, p, k0=2, loss=float(p.x("loss", default_loss)), cap_s=hb * 0.5 if cap_latency else None)
+        _mesh(net, nodes, p, k0=2, loss=float(p.x("loss", default_loss)), cap_s=min(hb, et) * 0.5 if cap_latency else None)
         arr = p.arrivals(8)
         state = {"part": None}
 
@@ -374,6 +540,8 @@ def _election(strategy: str, n: int, default_loss: float, cap_latency: bool = Tr
             proc.done += 1
             if i < n:
                 return nodes[i].start()  # members join at the arrival instants (burst)
+            if n < 2:
+                return nodes[0].start()  # nobody to be cut off from: a restart instead
             if i % 2 == 0 and state["part"] is None:
                 leader = next((nd for nd in nodes if nd.is_leader), nodes[-1])
                 state["part"] = net.partition([leader], [nd for nd in nodes if nd is not leader])
@@ -391,7 +559,7 @@ def _election(strategy: str, n: int, default_loss: float, cap_latency: bool = Tr
         for i, t in enumerate(arr):
             if i < n:
                 sim.schedule(ev(t, "start", driver, worker=i))
-            else:
+            elif k < 6:
                 # fault / repair operations are spread over the run (a few election timeouts apart)
                 k += 1
                 sim.schedule(ev(t + int(k * et * 2.75 * 1e9), "start", driver, worker=i))
@@ -408,72 +576,102 @@ scenario("consensus.election_bully", "consensus")(_election("bully", 4, 0.0))
 scenario("consensus.election_bully_lossy", "consensus")(_election("bully", 3, 0.1, cap_latency=False))
 scenario("consensus.election_ring", "consensus")(_election("ring", 4, 0.0))
 scenario("consensus.election_randomized", "consensus")(_election("random", 3, 0.02))
+# wide
+scenario("consensus.election_ring_nine", "consensus")(_election("ring", 9, 0.0))
+scenario("consensus.election_bully_heartbeat_slower_than_timeout", "consensus")(_election("bully", 3, 0.0, prop="hb_gt_et"))
+scenario("consensus.election_ring_heartbeat_slower_than_timeout", "consensus")(_election("ring", 3, 0.0, prop="hb_gt_et"))
+scenario("consensus.election_bully_heartbeat_much_faster", "consensus")(_election("bully", 3, 0.02, prop="hb_lt_et"))
+scenario("consensus.election_randomized_heartbeat_much_faster", "consensus")(_election("random", 2, 0.0, prop="hb_lt_et"))
 
 
 # ----------------------------------------------------------------------
 # SWIM membership + phi accrual detector
 
 
-@scenario("consensus.membership_silent_member", "consensus")
-def membership_silent_member(seed, params):
-    """4 protocol nodes + one member that never answers (a sink) + one node cut off and re-joined."""
-    p = P(params, seed)
-    end = p.end()
-    net = Network(name="net")
-    probe = _period(p.lat(0), end / 120.0)
-    susp = _period(p.lat(1), probe * 1.5)
-    nodes = [
-        MembershipProtocol(
-            f"m{i}",
-            network=net,
-            probe_interval=probe,
-            suspicion_timeout=susp,
-            indirect_probe_count=int(p.x("indirect", 2)),
-            phi_threshold=float(p.x("phi", 4.0)),
-        )
-        for i in range(4)
-    ]
-    silent = Recorder("silent")  # receives pings, never acks
-    for nd in nodes:
-        for o in nodes:
-            nd.add_member(o)  # add_member ignores self
-        nd.add_member(silent)
-    _mesh(net, [*nodes, silent], p, k0=2, loss=float(p.x("loss", 0.02)), cap_s=probe * 0.2)
-    arr = p.arrivals(6)
-    detector = PhiAccrualDetector(threshold=float(p.x("phi", 4.0)), initial_interval=probe)
+def _membership(n_default, prop=None):
+    """Protocol nodes = count(0) (1..9) + one member that never answers + (n >= 2) one node cut off
+    and re-joined.  prop 'susp_short': suspicion_timeout << probe_interval (shorter than the
+    indirect-probe delay); 'susp_long': suspicion_timeout >> probe_interval; 'indirect_none' /
+    'indirect_many': indirect_probe_count 0 / larger than the cluster."""
 
-    def op(proc, event):
-        i = event.context["metadata"]["worker"]
-        proc.done += 1
-        if i < len(nodes):
-            return nodes[i].start()
-        # later operations: sample a free-standing detector the way a monitor would
-        now_s = proc.now.to_seconds()
-        detector.heartbeat(now_s)
-        proc.log.append((i, round(detector.phi(now_s + probe), 6), detector.is_available(now_s + 10 * probe)))
-        return None
+    def build(seed, params):
+        p = P(params, seed)
+        end = p.end()
+        net = Network(name="net")
+        probe = _period(p.lat(0), end / 120.0)
+        n = p.count(0, n_default, lo=1, hi=9)
+        if prop == "susp_short":
+            susp = _below(p.lat(1), probe / 100.0)
+        elif prop == "susp_long":
+            susp = _period(p.lat(1), probe * 30.0)
+        else:
+            susp = _period(p.lat(1), probe * 1.5)
+        indirect = {"indirect_none": 0, "indirect_many": n + 5}.get(prop, int(p.x("indirect", 2)))
+        nodes = [
+            MembershipProtocol(
+                f"m{i}",
+                network=net,
+                probe_interval=probe,
+                suspicion_timeout=susp,
+                indirect_probe_count=indirect,
+                phi_threshold=float(p.x("phi", 4.0)),
+            )
+            for i in range(n)
+        ]
+        silent = Recorder("silent")  # receives pings, never acks
+        for nd in nodes:
+            for o in nodes:
+                nd.add_member(o)  # add_member ignores self
+            nd.add_member(silent)
+        _mesh(net, [*nodes, silent], p, k0=2, loss=float(p.x("loss", 0.02)), cap_s=probe * 0.2)
+        arr = p.arrivals(6)
+        detector = PhiAccrualDetector(threshold=float(p.x("phi", 4.0)), initial_interval=probe)
 
-    driver = Proc("driver", op)
+        def op(proc, event):
+            i = event.context["metadata"]["worker"]
+            proc.done += 1
+            if i < n:
+                return nodes[i].start()
+            # later operations: sample a free-standing detector the way a monitor would
+            now_s = proc.now.to_seconds()
+            detector.heartbeat(now_s)
+            proc.log.append((i, round(detector.phi(now_s + probe), 6), detector.is_available(now_s + 10 * probe)))
+            return None
 
-    def cut(proc, event):
-        yield probe * 6.5
-        part = net.partition([nodes[3]], nodes[:3])
-        proc.log.append(("cut", proc.now.nanoseconds))
-        yield susp * 2 + probe * 8
-        part.heal()
-        proc.log.append(("heal", proc.now.nanoseconds, [nd.stats.dead_count for nd in nodes]))
-        proc.done += 1
+        driver = Proc("driver", op)
 
-    pp = Proc("partitioner", cut)
-    sim = make_sim([net, *nodes, silent, driver, pp], end)
-    for i, t in enumerate(arr):
-        sim.schedule(ev(t if i < len(nodes) else t + int(i * probe * 1e9), "start", driver, worker=i))
-    for i in range(len(arr), len(nodes)):
-        sim.schedule(ev(min(arr), "start", driver, worker=i))
-    sim.schedule(ev(min(arr), "start", pp))
-    comps = {nd.name: nd for nd in nodes}
-    comps.update({"net": net, "silent": silent, "partitioner": pp})
-    return Scenario(sim, comps, "consensus", True, max(len(arr), len(nodes)) + 1)
+        def cut(proc, event):
+            yield probe * 6.5
+            if n < 2:
+                return
+            part = net.partition([nodes[-1]], nodes[:-1])
+            proc.log.append(("cut", proc.now.nanoseconds))
+            yield susp * 2 + probe * 8
+            part.heal()
+            proc.log.append(("heal", proc.now.nanoseconds, [nd.stats.dead_count for nd in nodes]))
+            proc.done += 1
+
+        pp = Proc("partitioner", cut)
+        sim = make_sim([net, *nodes, silent, driver, pp], end)
+        for i, t in enumerate(arr):
+            sim.schedule(ev(t if i < n else t + int(i * probe * 1e9), "start", driver, worker=i))
+        for i in range(len(arr), n):
+            sim.schedule(ev(min(arr), "start", driver, worker=i))
+        sim.schedule(ev(min(arr), "start", pp))
+        comps = {nd.name: nd for nd in nodes}
+        comps.update({"net": net, "silent": silent, "partitioner": pp})
+        return Scenario(sim, comps, "consensus", True, max(len(arr), n) + 1)
+
+    return build
+
+
+scenario("consensus.membership_silent_member", "consensus")(_membership(4))
+# wide
+scenario("consensus.membership_nine", "consensus")(_membership(9))
+scenario("consensus.membership_suspicion_shorter_than_probe", "consensus")(_membership(3, prop="susp_short"))
+scenario("consensus.membership_suspicion_much_longer_than_probe", "consensus")(_membership(3, prop="susp_long"))
+scenario("consensus.membership_no_indirect_probes", "consensus")(_membership(3, prop="indirect_none"))
+scenario("consensus.membership_more_indirect_probes_than_members", "consensus")(_membership(2, prop="indirect_many"))
 
 
 @scenario("consensus.membership_lossy_pair", "consensus")
@@ -514,96 +712,141 @@ def _take_expiry(lock):
     return []
 
 
-@scenario("consensus.lock_contention_generator_api", "consensus")
-def lock_contention(seed, params):
-    """More clients than locks; holders keep the lock for `hold` while the others wait; every
-    second holder out-stays its lease so the lock expires under it and the next waiter gets it."""
-    p = P(params, seed)
-    n_locks = p.cap(2)
-    hold = p.hold()
-    lease = float(p.x("lease", hold * 1.5))
-    lock = DistributedLock("locks", lease_duration=lease, max_waiters=int(p.x("max_waiters", 0)))
-    arr = p.arrivals(8)
+def _lock_generator_api(prop=None):
+    """prop None: lease = 1.5 hold.  'lease_short': lease << hold (every holder out-stays its lease
+    many times over; the waiters are served by expiries only).  'lease_long': lease >> hold.
+    max_waiters from x.max_waiters or (x.v % 3) in the proportion builders (0 = unbounded, 1, 2)."""
 
-    def body(proc, event):
-        i = event.context["metadata"]["worker"]
-        name = f"L{i % n_locks}"
-        me = f"{proc.name}#{i}"
-        if i % 4 == 0:
-            g = lock.try_acquire(name, me)  # non-blocking: wins only when the lock is free
+    def build(seed, params):
+        p = P(params, seed)
+        n_locks = p.cap(2) if prop is None else p.count(0, 1, lo=1, hi=3)
+        hold = p.hold()
+        if prop == "lease_short":
+            lease = _below(p.lat(0), hold / 100.0)
+            max_waiters = int(p.x("max_waiters", int(p.x("v", seed)) % 3))
+        elif prop == "lease_long":
+            lease = _period(p.lat(0), hold * 100.0)
+            max_waiters = int(p.x("max_waiters", int(p.x("v", seed)) % 3))
+        else:
+            lease = float(p.x("lease", hold * 1.5))
+            max_waiters = int(p.x("max_waiters", 0))
+        lock = DistributedLock("locks", lease_duration=lease, max_waiters=max_waiters)
+        arr = p.arrivals(8)
+
+        def body(proc, event):
+            i = event.context["metadata"]["worker"]
+            name = f"L{i % n_locks}"
+            me = f"{proc.name}#{i}"
+            if i % 4 == 0:
+                g = lock.try_acquire(name, me)  # non-blocking: wins only when the lock is free
+                if g is None:
+                    proc.done += 1
+                    return
+                lock.try_acquire(name, me)  # re-entrant: same grant
+                fut = None
+            else:
+                fut = lock.acquire(name, me)
+                g = None
+            pend = _take_expiry(lock)
+            if pend:
+                yield 0.0, pend
+            if fut is not None:
+                g = yield fut  # parked while another client holds the lock
+                if g is None:  # rejected: too many waiters
+                    proc.done += 1
+                    return
+                pend = _take_expiry(lock)  # granted by a release / an expiry: schedule its lease expiry now
+                if pend:
+                    yield 0.0, pend
+            # re-entrant acquire by the holder returns the same grant
+            lock.acquire(name, me)
+            yield hold * (2.0 if i % 2 else 0.5)  # odd workers out-stay a lease of 1.5 hold
+            ok = lock.release(name, g.fencing_token)
+            pend = _take_expiry(lock)  # the release granted the next waiter
+            proc.log.append((i, name, g.fencing_token, ok))
+            proc.done += 1
+            return pend or None
+
+        procs = [Proc(f"c{i}", body) for i in range(min(len(arr), 6))]
+        # the lock table is empty until the first acquire: release / expiry of a lock nobody holds
+        strays = [
+            ev(min(arr), "LockReleaseRequest", lock, lock_name="L0", fencing_token=12345),
+            ev(min(arr), "LockLeaseExpiry", lock, lock_name="never_taken", fencing_token=1),
+            ev(min(arr), "LockLeaseExpiry", lock),
+        ]
+        sim = make_sim([lock, *procs], p.end())
+        for e in strays:
+            sim.schedule(e)
+        for i, t in enumerate(arr):
+            sim.schedule(ev(t, "start", procs[i % len(procs)], worker=i))
+        # late comers: the locks have been idle (released / expired) for a while when they ask again
+        quiet = max(arr) + int((hold * 2.0 * (len(arr) + 1) + lease * 2.0) * 1e9)
+        idle = int(max(lease, hold) * 3.0 * 1e9) + 1
+        for j in range(3):
+            sim.schedule(ev(quiet + j * idle, "start", procs[j % len(procs)], worker=1 + 4 * j))
+        return Scenario(sim, {"lock": lock}, "consensus", True, len(arr) + len(strays) + 3)
+
+    return build
+
+
+scenario("consensus.lock_contention_generator_api", "consensus")(_lock_generator_api())
+# wide
+scenario("consensus.lock_lease_much_shorter_than_hold", "consensus")(_lock_generator_api("lease_short"))
+scenario("consensus.lock_lease_much_longer_than_hold", "consensus")(_lock_generator_api("lease_long"))
+
+
+def _lock_event_api(max_waiters_default, lease_div=1.0):
+    def build(seed, params):
+        p = P(params, seed)
+        lease = max(1e-9, p.hold() / lease_div)
+        lock = DistributedLock("locks", lease_duration=lease, max_waiters=int(p.x("max_waiters", max_waiters_default)))
+        arr = p.arrivals(8)
+
+        def body(proc, event):
+            i = event.context["metadata"]["worker"]
+            me = f"{proc.name}#{i}"
+            reply = SimFuture()
+            req = Event(
+                time=proc.now,
+                event_type="LockAcquireRequest",
+                target=lock,
+                context={"metadata": {"lock_name": "L", "requester": me}, "reply_future": reply},
+            )
+            yield 0.0, [req]
+            g = yield reply
             if g is None:
                 proc.done += 1
                 return
-            lock.try_acquire(name, me)  # re-entrant: same grant
-            fut = None
-        else:
-            fut = lock.acquire(name, me)
-            g = None
-        pend = _take_expiry(lock)
-        if pend:
-            yield 0.0, pend
-        if fut is not None:
-            g = yield fut  # parked while another client holds the lock
-            if g is None:  # rejected: too many waiters
-                proc.done += 1
-                return
-            pend = _take_expiry(lock)  # granted by a release / an expiry: schedule its lease expiry now
+            pend = _take_expiry(lock)
             if pend:
                 yield 0.0, pend
-        # re-entrant acquire by the holder returns the same grant
-        lock.acquire(name, me)
-        yield hold * (2.0 if i % 2 else 0.5)  # odd workers out-stay the lease (lease = 1.5 hold)
-        ok = lock.release(name, g.fencing_token)
-        pend = _take_expiry(lock)  # the release granted the next waiter
-        proc.log.append((i, name, g.fencing_token, ok))
-        proc.done += 1
-        return pend or None
-
-    procs = [Proc(f"c{i}", body) for i in range(min(len(arr), 6))]
-    sim = make_sim([lock, *procs], p.end())
-    for i, t in enumerate(arr):
-        sim.schedule(ev(t, "start", procs[i % len(procs)], worker=i))
-    return Scenario(sim, {"lock": lock}, "consensus", True, len(arr))
-
-
-@scenario("consensus.lock_event_api_expiry", "consensus")
-def lock_event_api(seed, params):
-    """Event-driven API (`LockAcquireRequest` / `LockReleaseRequest`) with a short lease:
-    holders never release in time, waiters are served by lease expiry."""
-    p = P(params, seed)
-    lease = p.hold()
-    lock = DistributedLock("locks", lease_duration=lease, max_waiters=int(p.x("max_waiters", 3)))
-    arr = p.arrivals(8)
-
-    def body(proc, event):
-        i = event.context["metadata"]["worker"]
-        me = f"{proc.name}#{i}"
-        reply = SimFuture()
-        req = Event(
-            time=proc.now,
-            event_type="LockAcquireRequest",
-            target=lock,
-            context={"metadata": {"lock_name": "L", "requester": me}, "reply_future": reply},
-        )
-        yield 0.0, [req]
-        g = yield reply
-        if g is None:
+            if i % 3 == 0:
+                # crashes while holding: never releases, the lease expiry frees the lock
+                proc.done += 1
+                return
+            yield p.hold() * (0.5 if i % 3 == 1 else 1.75)
             proc.done += 1
-            return
-        pend = _take_expiry(lock)
-        if pend:
-            yield 0.0, pend
-        if i % 3 == 0:
-            # crashes while holding: never releases, the lease expiry frees the lock
-            proc.done += 1
-            return
-        yield lease * (0.5 if i % 3 == 1 else 1.75)
-        proc.done += 1
-        # a late release carries a stale token and is ignored by the lock
-        return [Event(time=proc.now, event_type="LockReleaseRequest", target=lock, context={"metadata": {"lock_name": "L", "fencing_token": g.fencing_token}})]
+            # a late release carries a stale token and is ignored by the lock
+            return [Event(time=proc.now, event_type="LockReleaseRequest", target=lock, context={"metadata": {"lock_name": "L", "fencing_token": g.fencing_token}})]
 
-    procs = [Proc(f"c{i}", body) for i in range(min(len(arr), 5))]
-    sim = make_sim([lock, *procs], p.end())
-    for i, t in enumerate(arr):
-        sim.schedule(ev(t, "start", procs[i % len(procs)], worker=i))
-    return Scenario(sim, {"lock": lock}, "consensus", True, len(arr))
+        procs = [Proc(f"c{i}", body) for i in range(min(len(arr), 5))]
+        sim = make_sim([lock, *procs], p.end())
+        for i, t in enumerate(arr):
+            sim.schedule(ev(t, "start", procs[i % len(procs)], worker=i))
+        # requests without the mandatory fields are ignored
+        sim.schedule(ev(min(arr), "LockAcquireRequest", lock))
+        sim.schedule(ev(min(arr), "LockReleaseRequest", lock))
+        # late comers: the lock has been idle (expired) for a while when they ask again
+        quiet = max(arr) + int((p.hold() * 1.75 + lease) * (len(arr) + 1) * 1e9)
+        idle = int(max(lease, p.hold()) * 3.0 * 1e9) + 1
+        for j in range(3):
+            sim.schedule(ev(quiet + j * idle, "start", procs[j % len(procs)], worker=1 + 3 * j))
+        return Scenario(sim, {"lock": lock}, "consensus", True, len(arr) + 5)
+
+    return build
+
+
+scenario("consensus.lock_event_api_expiry", "consensus")(_lock_event_api(3))
+# wide
+scenario("consensus.lock_event_api_one_waiter", "consensus")(_lock_event_api(1))
+scenario("consensus.lock_event_api_unbounded_waiters_short_lease", "consensus")(_lock_event_api(0, lease_div=250.0))
